@@ -51,21 +51,23 @@ type SType struct {
 }
 
 type SNode struct {
-	Kind     Kind
-	Name     string
-	Config   bool  // effective
-	CfgStmt  *bool // stated
-	Keys     []string
-	Type     *SType
-	Default  *string
-	Children []*SNode
-	Parent   *SNode
-	When     string
-	Presence bool
-	Module   string // "" main module; otherwise name of the augmenting module that contributes the node
-	Ordered  bool   // ordered-by user
-	Short    bool   // case written in shorthand form (the case statement is implicit)
-	Meta     meta.Definition
+	Kind    Kind
+	Name    string
+	Config  bool  // effective
+	CfgStmt *bool // stated
+	Keys    []string
+	Type    *SType
+	Default *string
+	// DefaultText, when set, is how the default is spelled in the YANG text (a non-canonical spelling of Default)
+	DefaultText *string
+	Children    []*SNode
+	Parent      *SNode
+	When        string
+	Presence    bool
+	Module      string // "" main module; otherwise name of the augmenting module that contributes the node
+	Ordered     bool   // ordered-by user
+	Short       bool   // case written in shorthand form (the case statement is implicit)
+	Meta        meta.Definition
 }
 
 type Schema struct {
@@ -286,7 +288,9 @@ func (n *SNode) yangBody(b *strings.Builder, ind string, mod string) {
 	if n.Type != nil {
 		fmt.Fprintf(b, "%s%s\n", in, n.Type.yang(in))
 	}
-	if n.Default != nil {
+	if n.DefaultText != nil {
+		fmt.Fprintf(b, "%sdefault %s;\n", in, yq(*n.DefaultText))
+	} else if n.Default != nil {
 		fmt.Fprintf(b, "%sdefault %s;\n", in, yq(*n.Default))
 	}
 	for _, c := range n.Children {
@@ -566,6 +570,22 @@ func (g *gen) leaf(scope map[string]bool, allowed []string) *SNode {
 		d := RandScalar(g.r, n.Type, false)
 		if !strings.ContainsAny(d, "\"\\\n\t") {
 			n.Default = &d
+			// the same value spelled differently: trailing zeros of a decimal, the module prefix of an identity
+			if g.r.Intn(2) == 0 {
+				switch n.Type.Base {
+				case "decimal64":
+					t := d + "0"
+					if !strings.Contains(d, ".") {
+						t = d + ".0"
+					}
+					if len(t)-strings.Index(t, ".")-1 <= n.Type.FD {
+						n.DefaultText = &t
+					}
+				case "identityref":
+					t := "m:" + d
+					n.DefaultText = &t
+				}
+			}
 		}
 	}
 	return n
@@ -648,7 +668,7 @@ func (g *gen) wrap(kids []*SNode) {
 					isTarget[tgt] = true
 					if c.Default != nil {
 						d := RandScalar(g.r, c.Type, false)
-						c.Default = nil
+						c.Default, c.DefaultText = nil, nil
 						if !strings.ContainsAny(d, "\"\\\n\t") && c.Type.Base != "binary" {
 							c.Default = &d
 						}
